@@ -24,7 +24,7 @@ def names(rng, n, prefix, pool=None):
 
 
 class Scenario:
-    def __init__(self, n, c, k, sensors, seed=0, transcendental=False, pool=None):
+    def __init__(self, n, c, k, sensors, seed=0, transcendental=False, pool=None, linear=False):
         rng = random.Random(seed * 7919 + n * 131 + c * 17 + k * 5 + sum(sensors))
         self.rng = rng
         self.n, self.c, self.k, self.sensors = n, c, k, list(sensors)
@@ -38,8 +38,11 @@ class Scenario:
         for s in self.state:
             e = coef() * s
             for v in allsyms:
-                e = e + coef() * v * self.dt + coef() * v * v
-            if len(allsyms) >= 2:
+                e = e + coef() * v * self.dt + (0 if linear else coef() * v * v)
+            if linear:
+                # Jacobians depend on dt only; some control/state terms are NOT multiplied by dt
+                e = e + coef() * rng.choice(allsyms)
+            elif len(allsyms) >= 2:
                 a, b = rng.sample(allsyms, 2)
                 e = e + coef() * a * b
                 if transcendental:
@@ -55,7 +58,7 @@ class Scenario:
             for r in rnames:
                 e = sympy.Integer(0)
                 for v in obs:
-                    e = e + coef() * v + coef() * v * v
+                    e = e + coef() * v + (0 if linear else coef() * v * v)
                 sm[r] = e
             # adversarial insertion orders: expressions in shuffled order, noise in REVERSE sorted reading-name order
             self.sensor_models[sname] = sm
